@@ -21,3 +21,6 @@ pub use hashmap::{HashMapConfig, HashMapValue};
 pub use ndarray::{NdarrayConfig, NdarrayTrace, NdarrayValue};
 
 pub use core::{ChainStorage, StorageConfig, TraceStorage};
+
+#[cfg(nuts_rs_verif)]
+pub use hashmap::HashMapResult as VerifHashMapResult;
